@@ -92,7 +92,7 @@ def collect : List (Item String) → Except String (List Blk)
   | .garbage :: _ => .error "decode"
 
 def showErrDb : ImmutableDb.Err → String
-  | .cannotFind => "notfound" | .decode => "decode" | .read => "read"
+  | .cannotFind => "notfound" | .decode => "decode" | .read => "read" | .originMissing => "origin"
 
 def replyItems : ImmutableDb.Res (List (Item String)) → String
   | .ok items => match collect items with
